@@ -266,9 +266,14 @@ func (m *mappers) ToCharGroup(r comb.Result) (comb.Result, bool) {
 	items := r2.Val.(comb.List)
 
 	charMap := make([]bool, len(parser.RuneClasses["ASCII"].Runes()))
+	var extras []rune // characters beyond the ASCII table
 	for _, r := range items {
 		if chars, ok := r.Bag[bagKeyChars].([]rune); ok {
 			for _, c := range chars {
+				if int(c) >= len(charMap) {
+					extras = append(extras, c)
+					continue
+				}
 				charMap[c] = true
 			}
 		}
@@ -278,6 +283,13 @@ func (m *mappers) ToCharGroup(r comb.Result) (comb.Result, bool) {
 	for i, marked := range charMap {
 		if (!neg && marked) || (neg && !marked) {
 			nfa.Add(0, auto.Symbol(rune(i)), []auto.State{1})
+		}
+	}
+
+	// A negated group is complemented within ASCII, so characters beyond ASCII only matter when not negated.
+	if !neg {
+		for _, c := range extras {
+			nfa.Add(0, auto.Symbol(c), []auto.State{1})
 		}
 	}
 
